@@ -31,6 +31,30 @@ static dispatch_queue_global_t gq;
 static _Atomic long seen_tids[1024]; static _Atomic int nseen;
 static double deadline; static _Atomic int deadline_hit;   // wall-clock budget of the run: not a verdict, only keeps a broken library from hanging the check
 
+// The recorder's callback, with the stamp taken FIRST: dv_record.h takes it after looking up / creating the calling thread's
+// buffer (malloc + a mutex on a thread's first event), which can delay the stamp of a new pool thread's first operation by
+// thousands of events; the whole-run replay on the global model needs stamps that are close to the real order.
+static void rq_cb(const volatile void *addr, unsigned size, int kind, int order, unsigned long long a, unsigned long long b,
+		int ok, const char *file, int line) {
+	(void)file;
+	if (!atomic_load_explicit(&dv_enabled, memory_order_relaxed)) return;
+	uint64_t ticket = atomic_fetch_add(&dv_seq, 1);
+	int saved_errno = errno;
+	dv_thr_t *t = dv_me();
+	uintptr_t p = (uintptr_t)addr; int n = atomic_load_explicit(&dv_nranges, memory_order_acquire);
+	for (int i = n - 1; i >= 0; i--) if (p >= dv_ranges[i].lo && p < dv_ranges[i].hi) {
+		if (t->n == t->cap) { t->cap *= 2; t->ev = (dv_ev_t *)realloc(t->ev, t->cap * sizeof(dv_ev_t)); }
+		dv_ev_t *e = &t->ev[t->n++];
+		e->seq = ticket; e->kind = kind; e->order = order; e->obj = dv_ranges[i].obj; e->off = (long)(p - dv_ranges[i].lo);
+		e->size = (int)size; e->a = a; e->b = b; e->ok = ok; e->line = line;
+		break;
+	}
+	if (dv_permille) {
+		uint64_t r = dv_rand(t);
+		if ((int)(r % 1000) < dv_permille) { if ((r >> 20) & 3) sched_yield(); else usleep((useconds_t)((r >> 24) % 60)); }
+	}
+	errno = saved_errno;
+}
 static uint64_t rnd(uint64_t *s) { uint64_t z = (*s += 0x9E3779B97F4A7C15ull); z = (z ^ (z >> 30)) * 0xBF58476D1CE4E5B9ull;
 	z = (z ^ (z >> 27)) * 0x94D049BB133111EBull; return z ^ (z >> 31); }
 static double now_ms(void) { struct timespec ts; clock_gettime(CLOCK_MONOTONIC, &ts); return ts.tv_sec * 1e3 + ts.tv_nsec / 1e6; }
@@ -134,7 +158,7 @@ int main(int argc, char **argv) {
 		offsetof(struct dispatch_queue_global_s, dq_items_head), offsetof(struct dispatch_queue_global_s, dgq_pending),
 		offsetof(struct dispatch_object_s, do_next), off_sema, sizeof *gq, pool0);
 	deadline = now_ms() + 25000;
-	dv_install(seed, permille);
+	dv_install(seed, permille); _dispatch_verif_cb = rq_cb;
 	dv_track((void *)0, (size_t)-1, 0);
 	dv_track(gq, sizeof *gq, 1);
 	dv_track(&sm->dsema_value, (size_t)off_sema + sizeof(sm->dsema_sema), 2);
